@@ -25,9 +25,9 @@ RULE = (
     "for every writer in {extract_samps, extract_chans, extract_bands, apply_channel_mask, clean_rfi, invert_freq, downsample, subband, "
     "remove_zerodm, requantize, FilterbankBlock.to_file, TimeSeries.to_tim, FourierSeries.to_spec} x gulp in {1,2,3,N/2,N,10N} x depth {8,32,4}: the "
     "history of FileWriter.write/cwrite calls is recorded with an on-disk snapshot after each call (separate descriptor); every crash point "
-    "(after each write) must satisfy I1 complete final header, I2 byte-prefix of the final file and extension of the previous state, I3 "
+    "(after each write) must satisfy I1 complete final header, I2 byte-prefix of the final file, extension of the previous state by exactly the bytes written, I3 "
     "FilReader opens it and returns the first k samples; I4 the file is complete when the call returns (before any gc); plus every byte-length "
-    "truncation of each final file from hdrlen upwards is opened and read. thorough adds the syscall history (strace) replayed into a "
+    "truncation of each final file from hdrlen upwards is opened and read; every other history starts from a non-initial state (the output names already exist and hold a longer stale product). thorough adds the syscall history (strace) replayed into a "
     "byte-array model: model == real file, no write below EOF, no truncate/rename. Non-trivial = crash states with 0 < k < n"
 )
 ASSUMPTIONS = [
@@ -35,7 +35,7 @@ ASSUMPTIONS = [
     "the state before the header write (empty file right after open) is not a state 'after a write' and is not judged",
     "a writer that delays whole blocks but stays prefix-consistent satisfies the statement (k is just smaller) and is not flagged",
 ]
-REQUIRED_OUTCOMES = ["crash_state/ok", "crash_state/partial", "return_complete/ok", "truncation/ok", "truncation/mid_sample"]
+REQUIRED_OUTCOMES = ["crash_state/ok", "crash_state/partial", "crash_state/over_existing_longer_file", "return_complete/ok", "truncation/ok", "truncation/mid_sample"]
 
 WRITERS = ["extract_samps", "extract_chans", "extract_bands", "apply_channel_mask", "clean_rfi", "invert_freq", "downsample", "subband",
            "remove_zerodm", "requantize", "block.to_file", "ts.to_tim", "fs.to_spec"]
@@ -207,11 +207,22 @@ def run_shard(shard: dict, ctx, res, only=None) -> None:
     writer, nbits = shard["writer"], shard["nbits"]
     site = f"writer:{writer}"
     truncated_done = False
-    for g in shard.get("gulps", (1, 2, 3, N // 2, N, 10 * N)):
-        if only is not None and only != g:
+    gl = list(shard.get("gulps", (1, 2, 3, N // 2, N, 10 * N)))
+    for g, stale in [(g, st) for g in gl for st in (False, True)]:
+        if only is not None and only not in (g, [g, stale]):
             continue
-        case = {"shard": shard, "inner": g}
+        case = {"shard": shard, "inner": [g, stale]}
         fil = _input(wd, nbits, ctx.seed)
+        if stale:
+            # non-initial state: the output names already exist and hold a longer, stale product (a previous run plus 4099 bytes)
+            try:
+                for p in _run_writer(fil, writer, gl[-1], wd):
+                    size = os.path.getsize(p)
+                    with open(p, "wb") as fp:
+                        fp.write(b"\xa5" * (size + 4099))
+            except Exception:  # noqa: BLE001, S112
+                continue
+            fil = _input(wd, nbits, ctx.seed)
         with _Recorder() as rec:
             try:
                 outs = _run_writer(fil, writer, g, wd)
@@ -250,12 +261,20 @@ def run_shard(shard: dict, ctx, res, only=None) -> None:
                     res.violation({"site": site, "symptom": "output is not append-only (earlier bytes changed or file shrank)", "at": "between writes"}, case, what)
                     ok = False
                     break
+                grew = n if kind == "write" else n * nb // 8
+                if len(snap) != len(prev) + grew:
+                    res.violation({"site": site, "symptom": "file length is not the number of bytes written so far (stale or missing bytes)", "at": "between writes"}, case,
+                                  f"{what}: {len(snap)} bytes on disk, {len(prev)} before + {grew} written")
+                    ok = False
+                    break
                 if not _check_state(snap, final, hl, Xfin, nb, nc, wd, res, case, site, "between writes"):
                     ok = False
                     break
                 prev = snap
                 k = ((len(snap) - hl) * 8) // (nb * nc)
                 res.outcome("crash_state/ok")
+                if stale:
+                    res.outcome("crash_state/over_existing_longer_file")
                 if 0 < k < Xfin.shape[0]:
                     res.outcome("crash_state/partial")
                     res.nontrivial += 1
